@@ -43,6 +43,22 @@ theorem update_halts_only_with_witness_and_gate (k : Kind) (st st' : CState) (en
   refine ⟨?_, hg.1, hg.2, hv⟩
   cases k <;> simpa [requiredAcct] using hw
 
+/-- **which NeoFS Alphabet the main-chain gate means**: a re-designation executed in block `N` (stored under `N+1`) is
+the list `neofs.update` / `processing.update` see from block `N+1` on - they ask RoleManagement for index
+`CurrentIndex()+1`, i.e. the index of their own block - and is not yet seen at index `N`; there the previous
+designations decide. With `update_halts_only_with_witness_and_gate`: in block `N+1` only the NEW Alphabet's majority
+can update. -/
+theorem redesignation_in_force_from_next_block (ds : List (Int × List Nat)) (N : Int) (ks : List Nat) (later : Int)
+    (hl : N + 1 ≤ later) :
+    roleInForce (ds ++ [(N + 1, ks)]) later = ks ∧ roleInForce (ds ++ [(N + 1, ks)]) N = roleInForce ds N := by
+  unfold roleInForce
+  rw [List.foldl_append, List.foldl_append]
+  simp only [List.foldl_cons, List.foldl_nil]
+  constructor
+  · simp [hl]
+  · have : ¬ N + 1 ≤ N := by omega
+    simp [this]
+
 /-- **otherwise nothing changes**: without that witness, or outside the gate, the invocation FAULTs and the
 contract (executable version and storage) is exactly what it was -/
 theorem update_otherwise_nothing_changes (k : Kind) (st : CState) (env : Env) (data : Item) (nefOk : Bool)
@@ -138,6 +154,13 @@ example : update .neofs ⟨15004, []⟩ byCommittee .null true = none := by deci
 example : (update .neofs ⟨15004, []⟩ byRoleMajority .null true).map (·.ver) = some 20000 := by decide
 example : (update .nns ⟨18000, []⟩ byCommittee .null true).map (·.ver) = some 20000 := by decide
 example : deployVersion [.int 99999, .bytes [1], .int 19000] = some 19000 := by decide
+-- re-designation {0,1,2} -> {3,4,5} executed in block 10: block 11 obeys the new Alphabet, block 10 still the old one
+def roleAt (index : Int) : Env :=
+  { byCommittee with role := roleInForce [(0, [0, 1, 2]), (11, [3, 4, 5])] index, witnesses := [.msig 2 [0, 1, 2]] }
+example : update .neofs ⟨19999, []⟩ (roleAt 11) .null true = none ∧
+    (update .neofs ⟨19999, []⟩ (roleAt 10) .null true).map (·.ver) = some 20000 ∧
+    (update .neofs ⟨19999, []⟩ { roleAt 11 with witnesses := [.msig 2 [3, 4, 5]] } .null true).map (·.ver) = some 20000 := by
+  decide
 
 /-! ## 2. Pending votes block the upgrade of a non-notary contract -/
 
